@@ -134,6 +134,22 @@ def lex_prim(it, P_, sp, dest_ty):
         if it.decide(c, k):
             return ok(Tup([G.span(p + 1), Opaque('AbsChar', {'off': p, 'w': 1})]))
         return G.nom_error(it, sp)
+    if k == 'line_ending':
+        if p < n and it.decide(lx.is_in(p, '\n'), 'line_ending'):
+            return okspan(p + 1)
+        if p + 1 < n and it.decide(z3.And(*[c for c in (lx.is_in(p, '\r'), lx.is_in(p + 1, '\n')) if c is not True]) if not (lx.is_in(p, '\r') is False or lx.is_in(p + 1, '\n') is False) else False, 'line_ending'):
+            return okspan(p + 2)
+        return G.nom_error(it, sp)
+    if k in ('not_line_ending', 'not_line_ending1'):
+        # nom 7: everything up to CR or LF; a CR that is not followed by LF is an error
+        q = run_of('\r\n', negate=True)
+        if q < n:
+            c = lx.is_in(q, '\r')
+            if c is not False and it.decide(c, 'nle_cr'):
+                c2 = lx.is_in(q + 1, '\n') if q + 1 < n else False
+                if c2 is False or not it.decide(c2, 'nle_crlf'):
+                    return G.nom_error(it, sp)
+        return okspan(q)
     if k == 'eof':
         return ok(Tup([sp, G.span(p, length=0)])) if p == n else G.nom_error(it, sp)
     if k == 'take':
